@@ -168,7 +168,7 @@ type verifConn struct {
 	onWrite func(p []byte)
 }
 
-func (c *verifConn) Read(p []byte) (int, error)         { return c.in.Read(p) }
+func (c *verifConn) Read(p []byte) (int, error) { return c.in.Read(p) }
 func (c *verifConn) Write(p []byte) (int, error) {
 	if c.onWrite != nil {
 		c.onWrite(p)
